@@ -297,6 +297,8 @@ def rule_legal_src(ctx):
                 if not any(isinstance(x, tuple) and x[0] == "field" and x[-1] == "original_board" for x in walk(recv)) or any(
                         isinstance(x, tuple) and x[0] == "field" and x[-1] == "board" for x in walk(recv)):
                     wrong.append(expr_str(recv)[:60])
+    ctx.check(len(glm) >= 1, "%s:fallback-exists" % C.ITER_DEEP, "when no iteration completed, iter_deep asks the root position for a legal move (%d site(s))" % len(glm), it.where(glm[0][0] if glm else 0),
+              bad_what="iter_deep has no fall-back to a legal move: a search cut short before its first iteration ends answers `bestmove 0000` although legal moves exist")
     ctx.check(not wrong, "%s:fallback-from-the-root-position" % C.ITER_DEEP, "iter_deep takes its fall-back move from original_board.get_legal_moves() (%d site(s))" % len(glm), it.where(glm[0][0] if glm else 0),
               bad_what="iter_deep asks `%s` for legal moves: not the root position (the walked board can be one move ahead after an aborted search, so this is a move of the other side)" % wrong)
     emits = c10.bestmove_emits(ix, it)
@@ -513,6 +515,11 @@ def rule_time_budget(ctx):
     le = ctx.body(C.LIMITS_EXCEEDED)
     lsym = ctx.sym(le)
     reads = any(isinstance(x, tuple) and x[0] == "field" and x[-1] == "time_management_timer" for bi, i, s in le.stmts() for x in walk(lsym.rvalue(s["rv"])))
+    # ... whenever the GUI sent any clock parameter: all four (wtime, btime, winc, binc) switch the budget on
+    clock_fields = {x[-1] for bi, i, st in le.stmts() for x in walk(lsym.rvalue(st["rv"])) if isinstance(x, tuple) and x[0] == "field" and "limits" in x and x[-1] in ("white_time", "black_time", "white_increment", "black_increment")}
+    clock_fields |= {x[-1] for bi, t in le.calls() for a in t["args"] for x in walk(lsym.operand(a)) if isinstance(x, tuple) and x[0] == "field" and "limits" in x and x[-1] in ("white_time", "black_time", "white_increment", "black_increment")}
+    ctx.check(clock_fields == {"white_time", "black_time", "white_increment", "black_increment"}, "limits_exceeded:every-clock-parameter-counts", "the clock budget applies when any of wtime, btime, winc, binc was given", le.where(0),
+              bad_what="limits_exceeded looks at %s only: a `go` carrying just the other clock parameter(s) has no limit at all and is never answered" % sorted(clock_fields))
     ctx.check(reads, "limits_exceeded:reads-time-budget", "limits_exceeded compares the elapsed time with limits.time_management_timer", le.where(0), bad_what="limits_exceeded never reads the time-management budget")
 
 
